@@ -330,9 +330,11 @@ func ruleRangeIndexStep(c *core.Ctx) {
 		// single-definition locals of the loop body are substituted by their definitions
 		subst := map[types.Object]ast.Expr{}
 		ast.Inspect(fn.Decl.Body, func(m ast.Node) bool {
-			if as, ok := m.(*ast.AssignStmt); ok && as.Tok == token.DEFINE && len(as.Lhs) == 1 && len(as.Rhs) == 1 {
-				if obj := core.ObjOf(info, as.Lhs[0]); obj != nil && obj != acc && len(core.AssignsTo(info, fn.Decl, obj)) == 1 {
-					subst[obj] = as.Rhs[0]
+			if as, ok := m.(*ast.AssignStmt); ok && as.Tok == token.DEFINE && len(as.Lhs) == len(as.Rhs) {
+				for i := range as.Lhs {
+					if obj := core.ObjOf(info, as.Lhs[i]); obj != nil && obj != acc && len(core.AssignsTo(info, fn.Decl, obj)) == 1 {
+						subst[obj] = as.Rhs[i]
+					}
 				}
 			}
 			return true
